@@ -35,21 +35,25 @@ theorem wfCls_all (I : IState) (h : ∀ i, i < I.classes.length → I.wfCls i = 
 structure ClsParts (I : IState) (i : Nat) : Prop where
   ext : ∀ b, (I.cls i).ext = some b → b < i ∧ I.typeKeyOk b = true
   attr : ∀ f ∈ (I.cls i).fields, f.isAttr = true → f.inner < i ∧ I.typeKeyOk f.inner = true
-  elem : ∀ f ∈ (I.cls i).fields, f.isAttr = false → f.ty < i ∧ I.refOk f.ty = true
+  elem : ∀ f ∈ (I.cls i).fields, f.isAttr = false → f.isData = false → f.ty < i ∧ I.refOk f.ty = true
+  data : ∀ f ∈ (I.cls i).fields, f.isAttr = false → f.isData = true → f.inner < i ∧ I.refOk f.inner = true
 
 theorem wfCls_unpack (I : IState) (i : Nat) (h : I.wfCls i = true) : ClsParts I i := by
   simp only [IState.wfCls, Bool.and_eq_true, List.all_eq_true] at h
   obtain ⟨⟨⟨h1, h2⟩, _⟩, _⟩ := h
-  refine ⟨?_, ?_, ?_⟩
+  refine ⟨?_, ?_, ?_, ?_⟩
   · intro b hb
     rw [hb] at h1
     simpa using h1
   · intro f hf ha
     have := h2 f hf
     simpa [ha] using this
-  · intro f hf ha
+  · intro f hf ha hd
     have := h2 f hf
-    simpa [ha] using this
+    simpa [ha, hd] using this
+  · intro f hf ha hd
+    have := h2 f hf
+    simpa [ha, hd] using this
 
 /-- the situation after `build_schema_nodes`, as the closure argument needs it -/
 structure SchemaFacts (I : IState) (S : List Schema) (tags : List Nat) (trace : List String) : Prop where
@@ -59,7 +63,8 @@ structure SchemaFacts (I : IState) (S : List Schema) (tags : List Nat) (trace : 
   /-- a rendered complex class has its element -/
   elemOf : ∀ j ∈ tags, (I.cls j).kind = .complex →
     (I.cls j).elemNs I.tns ∈ trace ∧ ∃ s ∈ S, s.tns = (I.cls j).elemNs I.tns ∧ ∃ t ∈ s.elements, t.name = (I.cls j).elemName
-  members : ∀ j ∈ tags, (I.cls j).kind = .complex → ∀ f ∈ (I.cls j).fields, f.isAttr = false → f.ty ∈ tags
+  members : ∀ j ∈ tags, (I.cls j).kind = .complex → ∀ f ∈ (I.cls j).fields, f.isAttr = false → f.isData = false → f.ty ∈ tags
+  dataMembers : ∀ j ∈ tags, (I.cls j).kind = .complex → ∀ f ∈ (I.cls j).fields, f.isData = true → f.inner ∈ tags
   graph : ∀ g ∈ I.graph, g ∈ tags
   /-- every type node is the node of a rendered class -/
   typesFrom : ∀ s ∈ S, ∀ t ∈ s.types, ∃ j ∈ tags, (I.cls j).kind ≠ .builtin ∧ t = nodeOf I (I.cls j)
@@ -151,17 +156,25 @@ theorem node_refs_defined (j : Nat) (hj : j ∈ tags) (hk : (I.cls j).kind ≠ .
   | complex =>
     rw [hkind] at hq
     simp only [TypeDef.refs, List.mem_append, Option.mem_toList, List.mem_map] at hq
-    rcases hq with (hq | ⟨p, hp, rfl⟩) | ⟨a, ha, rfl⟩
+    rcases hq with ((hq | ⟨p, hp, rfl⟩) | ⟨a, ha, rfl⟩) | hq
     · cases he : (I.cls j).ext with
       | none => rw [he] at hq; simp at hq
       | some b => rw [he] at hq; simp only [Option.map_some, Option.mem_def, Option.some.injEq] at hq; rw [← hq]; exact hext b he
     · simp only [particlesOf, List.mem_map, List.mem_filter] at hp
       obtain ⟨f, ⟨hf', hfa⟩, rfl⟩ := hp
-      have hfa' : f.isAttr = false := by simpa using hfa
-      exact typeDefined_of_refOk I d tags trace hw hf hdecl f.ty (hf.members j hj hkind f hf' hfa') (cp.elem f hf' hfa').2
+      have hfa' : f.isAttr = false ∧ f.isData = false := by simpa using hfa
+      exact typeDefined_of_refOk I d tags trace hw hf hdecl f.ty (hf.members j hj hkind f hf' hfa'.1 hfa'.2)
+        (cp.elem f hf' hfa'.1 hfa'.2).2
     · simp only [attrDecls, attrFields, List.mem_map, List.mem_filter] at ha
       obtain ⟨f, ⟨hf', hfa⟩, rfl⟩ := ha
       exact typeDefined_of_keyOk I d tags trace hw hf hdecl f.inner (cp.attr f hf' hfa).2
+    · simp only [dataBasesOf, List.mem_map, List.mem_filter] at hq
+      obtain ⟨f, ⟨hf', hfd⟩, rfl⟩ := hq
+      by_cases hfa : f.isAttr = true
+      · exact typeDefined_of_keyOk I d tags trace hw hf hdecl f.inner (cp.attr f hf' hfa).2
+      · have hfa' : f.isAttr = false := by simpa using hfa
+        exact typeDefined_of_refOk I d tags trace hw hf hdecl f.inner (hf.dataMembers j hj hkind f hf' hfd)
+          (cp.data f hf' hfa' hfd).2
 
 /-- **every `type=` and `base=` of the embedded schemas resolves** -/
 theorem typeRefs_defined (hm : ∀ m ∈ allMethods I, MethParts I m) (q : QN) (hq : q ∈ d.typeRefs) :
@@ -208,8 +221,12 @@ end closure
 /-! ## the facts hold after `build_schema_nodes` -/
 
 theorem ranked_of_wf (I : IState) (hw : WfParts I) : Ranked I := by
-  intro i hi f hf ha
-  exact ((wfCls_unpack I i (hw.cls i hi)).elem f hf ha).1
+  intro i hi f hf
+  have cp := wfCls_unpack I i (hw.cls i hi)
+  refine ⟨fun ha hd => (cp.elem f hf ha hd).1, fun hd => ?_⟩
+  by_cases ha : f.isAttr = true
+  · exact (cp.attr f hf ha).1
+  · exact (cp.data f hf (by simpa using ha) hd).1
 
 theorem topo_nil (F : Facts07) (e : Enum) (key : Nat → List Nat) : topo F e key [] = .ok [] := by
   simp [topo]
@@ -317,7 +334,7 @@ theorem schemaFacts_of_build (F : Facts07) (e : Enum) (he : e.Valid) (I : IState
     rcases hq j hj with h | h
     · cases h
     · exact h
-  refine ⟨st.tags, st.trace, ⟨?_, ?_, ?_, ?_, ?_, ?_, ?_, ?_, ?_, ?_⟩, ?_⟩
+  refine ⟨st.tags, st.trace, ⟨?_, ?_, ?_, ?_, ?_, ?_, ?_, ?_, ?_, ?_, ?_⟩, ?_⟩
   · intro j hj hk
     rcases done j hj with h | ⟨h1, h2, _⟩
     · exact absurd h hk
@@ -327,10 +344,14 @@ theorem schemaFacts_of_build (F : Facts07) (e : Enum) (he : e.Valid) (I : IState
     · rw [hk] at h; cases h
     · obtain ⟨e1, e2, _⟩ := h3 hk
       exact ⟨e2, elemS _ _ e1⟩
-  · intro j hj hk f hf' ha
+  · intro j hj hk f hf' ha hd
     rcases done j hj with h | ⟨_, _, h3⟩
     · rw [hk] at h; cases h
-    · exact (h3 hk).2.2 f hf' ha
+    · exact (h3 hk).2.2.1 f hf' ha hd
+  · intro j hj hk f hf' hd
+    rcases done j hj with h | ⟨_, _, h3⟩
+    · rw [hk] at h; cases h
+    · exact (h3 hk).2.2.2 f hf' hd
   · intro g hg
     exact htags g ((hord g).mpr hg)
   · intro s hs' t ht'
